@@ -258,8 +258,32 @@ def specOrderOnce (h : List Op) (failAt : Option Nat) (o : Obs) : Option String 
     let recs := (auditRecs h).filterMap fun r => if r.2.ses = a.aid then some r.2.ts else none
     if got.isSublist recs then none else some "events-of-a-session-reordered-or-repeated"
 
+/-- C16's "dropped, not emitted late", for EVERY history: an event that was held (written by a later operation than
+the one that delivered it) was not overtaken by a cleanup — every `cleanSessions t` between its delivery and its
+emission has a cut-off no later than the stamp of a LOGIN-type record of its session delivered before it (the stamp the
+session entry holding it carries). Existential over the deliveries that carry the event's time stamp, so sound without
+any uniqueness assumption. (Proved of the model for all histories and write oracles: `C16L.not_late_spec_holds`.) -/
+def specNotLate (h : List Op) (o : Obs) : Option String :=
+  let ops := idxOps h
+  o.acts.findSome? fun (a : ObsAction) =>
+    let ok := ops.any fun p =>
+      match p.2 with
+      | .audit e _ =>
+        e.ts = a.ts && e.ses = a.aid && p.1 ≤ a.idx &&
+        ops.all fun c =>
+          match c.2 with
+          | .cleanSessions t =>
+            !(p.1 < c.1 && c.1 < a.idx) ||
+            ops.any fun r =>
+              match r.2 with
+              | .audit e' now' => r.1 ≤ p.1 && e'.typ = .login && e'.ses = a.aid && t ≤ now'
+              | _ => false
+          | _ => true
+      | _ => false
+    if ok then none else some "held-event-emitted-after-a-cleanup-that-discards-its-session"
+
 def specC02 (h : List Op) (failAt : Option Nat) (o : Obs) : Option String :=
-  match specOrderOnce h failAt o with
+  match (specOrderOnce h failAt o).orElse fun _ => specNotLate h o with
   | some c => some c
   | none => if !wfNoReuse h then none else specComplete h failAt o
 
@@ -297,8 +321,16 @@ def specRender (h : List Op) (o : Obs) : Option String :=
     | none => some "event-with-unknown-timestamp"
     | some (_, e) => (renderClause e a).orElse fun _ => some "rendering"
 
+/-- the identity content of every emitted event — subjects, source, target — is, as a whole, the identity of ONE login
+that was delivered (an event is rendered from the stored login, never from parts of two). Proved of the model for all
+histories: `C14S.whole_identity_spec_holds`. -/
+def specWholeIdentity (h : List Op) (o : Obs) : Option String :=
+  o.acts.findSome? fun (a : ObsAction) =>
+    if (loginOps h).any fun l => decide (identOf l.2 = a.identity) then none
+    else some "identity-content-is-no-single-login's"
+
 def specC14 (h : List Op) (o : Obs) : Option String :=
-  match specRender h o with
+  match (specRender h o).orElse fun _ => specWholeIdentity h o with
   | some c => some c
   | none =>
     o.acts.findSome? fun (a : ObsAction) =>
